@@ -4,6 +4,7 @@ package main
 
 import (
 	"fmt"
+	"go/types"
 	"strings"
 
 	"golang.org/x/tools/go/ssa"
@@ -15,9 +16,9 @@ func init() {
 		Title: "Metamethods are selected and applied by the Lua 5.1 rules",
 		Explanation: "Decided: R04-raw — 'rawget, rawset and rawequal never invoke handlers': in the VTA call graph no function reachable from baseRawGet/baseRawSet/baseRawEqual or from the (*LTable).Raw* accessors is part of the metamethod machinery (callR, Call, PCall, metaOp1, metaOp2, metaCall, metatable, getField*, setField*), and in equals() the handler lookup is on the !raw arm only; " +
 			"R04-events — the event name that reaches metaOp1/metaOp2/objectRational* from each operation equals the Lua 5.1 manual §2.8 table (arithmetic per opcode, __unm, __len, __concat, __eq, __lt, __le with the 'not (b < a)' fallback using swapped operands and negation, __index, __newindex, __call, __tostring, __metatable), operands are passed in source order, the handler is pushed before its operands and exactly one result is requested; binary lookups try the left operand first. " +
-			"NOT decided: raw-first lookup order, __newindex only for absent keys, the __eq identity condition, chain depth — visible only as 'this is how it is written'.",
+			"R04-siblings — the generic and the string-keyed index/assignment helpers (getField/getFieldString, setField/setFieldString) perform the same sequence of raw lookups, stores, handler calls and raises. NOT decided: raw-first lookup order, __newindex only for absent keys, the __eq identity condition, chain depth — visible only as 'this is how it is written'.",
 		Trusted: []string{"Lua 5.1 manual §2.8 event table written out in the checker"},
-		Rules:   []func(*Ctx){ruleRaw, ruleEvents},
+		Rules:   []func(*Ctx){ruleRaw, ruleEvents, ruleSiblings},
 	})
 }
 
@@ -289,6 +290,81 @@ func ruleEvents(c *Ctx) {
 			}
 			c.check(okc, R, fmt.Sprintf("%s:handler-call#%d", name, countKey(c, R, "hc"+name)), p.ipos(cl), fmt.Sprintf("handler then %d operand(s) in source order", nargs), "the handler is not called with (handler, operands in source order) / the argument count does not match what was pushed")
 		}
+	}
+}
+
+// ruleSiblings: the string-keyed and the generic field accessors are siblings (Engler-style
+// cross-check): the same lookups, stores, handler calls and raises in the same order.
+func ruleSiblings(c *Ctx) {
+	const R = "R04-siblings"
+	c.floor(R, 2)
+	p := c.P
+	canon := func(fn *ssa.Function) []string {
+		var out []string
+		g := p.G(fn)
+		for _, b := range fn.Blocks {
+			if !g.Reach[b] {
+				continue
+			}
+			for _, in := range b.Instrs {
+				if !g.Live(in) {
+					break
+				}
+				switch x := in.(type) {
+				case *ssa.Call:
+					sc := x.Call.StaticCallee()
+					if sc == nil {
+						continue
+					}
+					switch fname(sc) {
+					case "(*LTable).RawGet", "(*LTable).RawGetString":
+						out = append(out, "rawget")
+					case "(*LState).RawSet", "(*LTable).RawSetString", "(*LTable).RawSet":
+						out = append(out, "rawset")
+					case "(*LState).metaOp1":
+						ev, _ := constStr(x.Call.Args[2])
+						out = append(out, "meta("+ev+")")
+					case "(*registry).Push":
+						out = append(out, "push")
+					case "(*registry).Pop":
+						out = append(out, "pop")
+					case "(*LState).Call":
+						a, _ := constInt(x.Call.Args[1])
+						r, _ := constInt(x.Call.Args[2])
+						out = append(out, fmt.Sprintf("call(%d,%d)", a, r))
+					case "(*LState).RaiseError":
+						out = append(out, "raise")
+					}
+				case *ssa.TypeAssert:
+					out = append(out, "assert("+types.TypeString(x.AssertedType, func(*types.Package) string { return "" })+")")
+				case *ssa.Return:
+					out = append(out, "ret")
+				}
+			}
+		}
+		return out
+	}
+	for _, pair := range [][2]string{{"(*LState).getField", "(*LState).getFieldString"}, {"(*LState).setField", "(*LState).setFieldString"}} {
+		a, b := c.need(R, "lua", pair[0]), c.need(R, "lua", pair[1])
+		if a == nil || b == nil {
+			continue
+		}
+		sa, sb := canon(a), canon(b)
+		same := len(sa) == len(sb)
+		diff := ""
+		for i := 0; i < len(sa) && i < len(sb); i++ {
+			if sa[i] != sb[i] {
+				same = false
+				if diff == "" {
+					diff = fmt.Sprintf("step %d: %s vs %s", i+1, sa[i], sb[i])
+				}
+			}
+		}
+		if !same && diff == "" {
+			diff = fmt.Sprintf("%d vs %d steps (%s | %s)", len(sa), len(sb), strings.Join(sa, " "), strings.Join(sb, " "))
+		}
+		c.check(same, R, pair[0]+"≡"+pair[1], p.pos(b.Pos()), fmt.Sprintf("both perform the same %d lookup/store/handler steps", len(sa)),
+			"the generic and the string-keyed accessor no longer follow the same metamethod chain ("+diff+"): t[k] and t.name select different handlers")
 	}
 }
 
